@@ -54,9 +54,14 @@ package server
 //@ func (*monitor).filter2
 //@ requires m != nil && update != nil
 //@ modifies nothing
+// the columns are the request's columns whether or not it carries a select; the
+// select is the request's, or reports every kind of change when there is none
 //@ func (*monitor).requested
 //@ requires m != nil
 //@ modifies nothing
+//@ ensures (table in m.request) && m.request[table] != nil ==> result0 == m.request[table].Columns
+//@ ensures !((table in m.request) && m.request[table] != nil) ==> len(result0) == 0
+//@ ensures (table in m.request) && m.request[table] != nil && m.request[table].Select != nil ==> result1 == *m.request[table].Select
 //@ func filterColumns
 //@ modifies nothing
 
